@@ -22,6 +22,7 @@ mod c09;
 mod c10;
 mod c11;
 mod c13;
+mod c14;
 mod c17;
 mod c18;
 
@@ -92,6 +93,11 @@ const PROPS: &[PropDef] = &[PropDef {
     level: "exploration",
     run: c13::run,
     replay: c13::replay,
+}, PropDef {
+    id: "C14",
+    level: "exploration",
+    run: c14::run,
+    replay: c14::replay,
 }, PropDef {
     id: "C17",
     level: "exploration",
